@@ -28,7 +28,7 @@ EVIDENCE = os.path.join(VERIF, "evidence")
 REPLAYS = os.environ.get("VERIF_REPLAYS_DIR") or os.path.join(VERIF, "replays")
 KNOWN_FINDINGS = os.path.join(VERIF, "known_findings.json")
 
-JOB_TIMEOUT = 60.0
+JOB_TIMEOUT = 30.0
 
 
 class HarnessError(Exception):
